@@ -7,7 +7,7 @@ from . import geom
 
 SPEC = dict(
     technique='Lean 4 proof (exp = Rodrigues/screw closed form in 3-D, rotation / se(2) closed form in 2-D, exp(log R) = R on the acute and the obtuse branch of the SO(3) logarithm; regenerated model) + float monitor of the singular bands',
-    lean_modules=['SmVerif.Props.C03', 'SmVerif.Props.Exp2', 'SmVerif.Props.Half', 'SmVerif.Props.SE3Log'],
+    lean_modules=['SmVerif.Props.C03', 'SmVerif.Props.Exp2', 'SmVerif.Props.Half', 'SmVerif.Props.SE3Log', 'SmVerif.Props.LogExp'],
     groups=['Transforms3d', 'Transforms2d', 'TransformsNd', 'Vectors'],
     expected_untranslatable=('trinterp_T', 'trinterp_T_nostart'),
     partial=['identification with the power-series matrix exponential is by the one-parameter-group characterisation; '
